@@ -108,6 +108,16 @@ def writeKey (a k v : Bytes) : M Unit := do
 def getAcct (a : Bytes) : M Acct := fun c => .ok (c.accts.get a, c)
 def setAcct (a : Bytes) (x : Acct) : M Unit := fun c => .ok ((), { c with accts := c.accts.set a x })
 
+/-- account-level field updates (`ChangeOwnerAddress`, `SetUserName`, `ClaimDeveloperRewards`, `AddToBalance`) -/
+def setOwner (a v : Bytes) : M Unit := fun c =>
+  .ok ((), { c with accts := c.accts.set a { c.accts.get a with owner := v } })
+def setName (a v : Bytes) : M Unit := fun c =>
+  .ok ((), { c with accts := c.accts.set a { c.accts.get a with name := v } })
+def setReward (a : Bytes) (v : Int) : M Unit := fun c =>
+  .ok ((), { c with accts := c.accts.set a { c.accts.get a with reward := v } })
+def setBalance (a : Bytes) (v : Int) : M Unit := fun c =>
+  .ok ((), { c with accts := c.accts.set a { c.accts.get a with balance := v } })
+
 def loadAcct : M Unit := tick .l
 def saveAcct : M Unit := tick .s
 
